@@ -218,7 +218,19 @@ def cull_rules(rep, prog):
                         "with face_cull = %s and a %s triangle, tri_fill is %s (expected %s)"
                         % (k.split("/")[0], k.split("/")[1], "reachable" if table[k] else "unreachable",
                            "reachable" if want[k] else "unreachable"), config=cfg)
-    # every is_backface call inspects the screen-space triangle that is then filled
+    # F3b: every is_backface call inspects the very screen-space triangle that is then filled
+    # (the winding that counts is the ON-SCREEN one, i.e. after the viewport transform)
+    fill_args = [T.strip(sl.operand(t["args"][0]), sites=False, refs=True, casts=True) for _bi, t in rn.calls(lambda c: facts.callee_matches(c, "raster::tri_fill"))]
+    for bi, t in rn.calls(lambda c: facts.callee_matches(c, "render::is_backface")):
+        a = T.strip(sl.operand(t["args"][0]), sites=False, refs=True, casts=True)
+        same = a in fill_args
+        screen = T.contains(a, lambda q: q[0] == "agg" and q[1].startswith("closure:") and
+                            any(True for _b, _t in prog.bodies[q[1][8:]].calls(lambda c: "mat::Matrix" in c["path"] and c["path"].endswith("::apply"))))
+        rep.inst("C07.F3", "is_backface at %s inspects the triangle handed to tri_fill: %s (screen-space, after the viewport transform: %s)" % (rn.where(bi, None), same, screen), config=cfg)
+        if not (same and screen):
+            rep.violate("C07.F3", "F3|winding-space", rn.where(bi, None),
+                        "the cull decision is taken on %s, not on the screen-space vertices that are rasterised: a mirroring viewport flips the on-screen winding"
+                        % T.show(a)[:100], config=cfg)
     return fills, heads
 
 
